@@ -371,6 +371,7 @@ pub fn string_ends_with(
     };
     let end_position = args
         .get(1)
+        .filter(|v| !v.is_undefined())
         .map(|v| v.to_number() as usize)
         .unwrap_or(s.len());
 
@@ -392,7 +393,11 @@ pub fn string_slice(
     let len = s.len() as i64;
 
     let start_arg = args.first().map(|v| v.to_number() as i64).unwrap_or(0);
-    let end_arg = args.get(1).map(|v| v.to_number() as i64).unwrap_or(len);
+    let end_arg = args
+        .get(1)
+        .filter(|v| !v.is_undefined())
+        .map(|v| v.to_number() as i64)
+        .unwrap_or(len);
 
     let start = if start_arg < 0 {
         (len + start_arg).max(0)
@@ -438,6 +443,7 @@ pub fn string_substring(
 
     let end = args
         .get(1)
+        .filter(|v| !v.is_undefined())
         .map(|v| {
             let n = v.to_number();
             if n.is_nan() { 0 } else { (n as usize).min(len) }
@@ -491,6 +497,7 @@ pub fn string_substr(
     // Get length (default: rest of string)
     let length = args
         .get(1)
+        .filter(|v| !v.is_undefined())
         .map(|v| {
             let n = v.to_number();
             if n.is_nan() || n < 0.0 { 0 } else { n as usize }
@@ -571,7 +578,10 @@ pub fn string_split(
 
     let s = interp.to_js_string(&this);
     let separator_arg = args.first().cloned();
-    let limit = args.get(1).map(|v| v.to_number() as usize);
+    let limit = args
+        .get(1)
+        .filter(|v| !v.is_undefined())
+        .map(|v| v.to_number() as usize);
 
     let parts: Vec<JsValue> = match separator_arg {
         // Per ECMAScript spec: if separator is undefined, return array containing original string
